@@ -17,6 +17,13 @@ class Terms:
         self.f = facts
         self._parent_site = None
 
+    def frame_rets(self, b):
+        if not hasattr(self, '_frets'):
+            self._frets = {}
+        if b.id not in self._frets:
+            self._frets[b.id] = {f_['locals'][0] for f_ in (b.raw.get('inlined') or [])}
+        return self._frets[b.id]
+
     # closure body id -> (parent body, aggregate ops)
     def parent_sites(self):
         if self._parent_site is None:
@@ -91,6 +98,17 @@ class Terms:
                 return ('resume',)
         if not ds:
             return ('undef', b.name(l))
+        # the return place of an inlined helper is assigned once per way out of the helper: keep all of them, so that
+        # "the value comes from a seek / a digest / a call of X" is still visible behind the helper's `?` paths
+        if l in self.frame_rets(b) and len(ds) <= 6 and d < MAXD - 8:
+            alts = []
+            for dd in ds:
+                if dd[0] == 'assign' and not dd[1]['pl']['p']:
+                    alts.append(self.of_rvalue(b, dd[1]['rv'], d + 4))
+                elif dd[0] == 'call':
+                    alts.append(self.of_call(b, dd[1], d + 4))
+            if alts:
+                return ('phi', alts)
         # several definitions: a mutable variable / accumulator / phi
         return ('var', b.id, b.name(l))
 
@@ -193,6 +211,7 @@ def show(t, depth=0):
     if k == 'agg': return t[1].split('::')[-1] + '::' + t[2] + '{' + ', '.join(f'{a}: {show(v)}' for a, v in t[3].items()) + '}'
     if k == 'tuple': return '(' + ', '.join(show(x) for x in t[1]) + ')'
     if k == 'closure': return 'closure<' + t[1].split('::', 1)[-1] + '>'
+    if k == 'phi': return 'phi(' + ' | '.join(show(x) for x in t[1]) + ')'
     return str(t)
 
 
